@@ -1,5 +1,5 @@
 (* src/registry.rs (definitions). *)
-Require Import PV.Base.Prelude PV.Base.F64.
+Require Import PV.Base.Prelude PV.Base.F64 PV.Base.Fnv.
 Require Import PV.Model.Proto PV.Model.Desc PV.Model.Value.
 Open Scope N_scope.
 
@@ -35,12 +35,21 @@ Definition reg_new_custom {C} (prefix : option str) (labels : option (list (str 
 
 Definition desc_label_names (d : Desc) : list str := map lp_name (d_const_pairs d) ++ d_vars d.
 
+(* fn collector_id (after the collector-id repair): FNV-1a over the descriptor ids, sorted, each written with
+   Hasher::write_u64 (= its 8 bytes in native, i.e. little-endian, order).  Before the repair the ids were added up
+   (wrapping), and sums of different id sets coincide for ordinary collectors. *)
+Definition le_bytes8 (n : N) : list N :=
+  [n mod 256; (n / 256) mod 256; (n / 65536) mod 256; (n / 16777216) mod 256;
+   (n / 4294967296) mod 256; (n / 1099511627776) mod 256; (n / 281474976710656) mod 256; (n / 72057594037927936) mod 256].
+Definition ids_hash (ids : list N) : N := fnv1a (flat_map le_bytes8 (sort_by N.leb ids)).
+
 (* the per-descriptor loop of RegistryCore::register; state = (ids seen in this collector,
-   collector id, staged dimension hashes) *)
+   unused accumulator kept from the pre-repair model, staged dimension hashes); the collector id is computed
+   from the set of ids after the loop *)
 Fixpoint reg_check_descs {C} (r : regcore C) (ds : list Desc) (seen : list N) (cid : N) (staged : list (str * N))
   : result (list N * N * list (str * N)) :=
   match ds with
-  | [] => Ok (seen, cid, staged)
+  | [] => Ok (seen, ids_hash seen, staged)
   | d :: rest =>
       if memN (d_id d) (r_desc_ids r) then Err EAlreadyReg
       else if match r_labels r with
@@ -54,7 +63,7 @@ Fixpoint reg_check_descs {C} (r : regcore C) (ds : list Desc) (seen : list N) (c
                      end in
         if match known with Some h => negb (h =? d_dim d) | None => false end then Err EMsg
         else if memN (d_id d) seen then Err EMsg
-        else reg_check_descs r rest (d_id d :: seen) (wrap64 (cid + d_id d))
+        else reg_check_descs r rest (d_id d :: seen) cid
                              (ainsert (d_fq_name d) (d_dim d) staged)
   end.
 
@@ -70,13 +79,13 @@ Definition reg_register {C} (r : regcore C) (ds : list Desc) (c : C) : result (r
       end
   end.
 
-(* unregister: collector id = wrapping sum of the distinct descriptor ids *)
+(* unregister: collector id = ids_hash of the distinct descriptor ids *)
 Fixpoint distinct_ids (ds : list Desc) (acc : list N) : list N :=
   match ds with
   | [] => rev acc
   | d :: r => if memN (d_id d) acc then distinct_ids r acc else distinct_ids r (d_id d :: acc)
   end.
-Definition collector_id (ds : list Desc) : N := fold_left (fun a i => wrap64 (a + i)) (distinct_ids ds []) 0.
+Definition collector_id (ds : list Desc) : N := ids_hash (distinct_ids ds []).
 Definition reg_unregister {C} (r : regcore C) (ds : list Desc) : result (regcore C) :=
   let cid := collector_id ds in
   match nlookup cid (r_collectors r) with
